@@ -79,6 +79,44 @@ CLAIMS = {
              'pending-load map (R8).',
         technique='who-may-call + def-use provenance of candidate lists + must-pass-through filters + normalised comparison (ast)',
         design='4/C04'),
+    'C03': dict(
+        text='The order of requests relative to the TRUE process states over all timings is NOT decided. Decided for '
+             'every path: lowest-sequence pick-up bound through the class hierarchy (R1); the next group of an '
+             'application / of the Starter is popped only when the current one is empty, the whole plan is stored '
+             'before the first trigger (R2); sequence 0 excluded at the three places it could enter (R3); the event '
+             'handler of a start command is total over the 8 process states and completes a job only on RUNNING / '
+             'expected EXITED under wait_exit (R4); starting failure strategy effects ABORT/STOP/CONTINUE (R5); every '
+             'give-up path reports the failure (R6).',
+        technique='constant binding through the MRO + must-pass-through facts + exhaustive state/result table over return paths (ast)',
+        design='4/C03'),
+    'C09': dict(
+        text='Real ordering against TRUE process states and loss of a non-Master mid-ending are NOT decided. Decided for '
+             'every path: highest-sequence pick-up and current-group-empty guard, whole stop plan stored before the '
+             'first trigger (R1, R2); stop requests only where the process runs, single emission point (R3); '
+             'restart/shutdown re-routing to the Master and request table agreement sender/branch/remote method for the '
+             '7 request headers (R4); the final order is sent only when leaving the ending state, to the local '
+             'Supervisor, after a stop phase, ending states lead only to FINAL (R5).',
+        technique='constant binding + who-may-call + writer/reader table agreement + must-call (ast, call graph)',
+        design='4/C09'),
+    'C10': dict(
+        text='The numeric bound in ticks under event loss is NOT decided. Decided for every path: the timeout check chain '
+             'tick -> Commander.check -> ApplicationJobs.check -> timed_out() is unconditional (R1); path enumeration of '
+             'both timed_out(): every IN_PROGRESS answer has passed a false tick deadline whose true branch is '
+             'TIMED_OUT, bounded by minimum_ticks (acknowledgement) or wait_ticks (completion), except the documented '
+             'wait_exit path (R2); a give-up is applied locally and published with a forced payload, accepted from '
+             'instances that do not know the program (R3); jobs are dropped with their instance (R4); wait_ticks '
+             'derivation (R5).',
+        technique='must-call chains + exhaustive return-path enumeration with normalised deadline comparisons (ast)',
+        design='4/C10'),
+    'C14': dict(
+        text='Optimality over numeric load tables is NOT decided. Loads are touched only through sorted(key=...), index '
+             '0/-1 and one <=, a finite set of orderings, which is decided: strategy dispatch table (R1); each of the 6 '
+             'strategy classes summarised as (order key, end) against the frozen spec from the statement, tuple order '
+             'writer/reader agreement, pending requests part of the instance load (R2); every placement passes '
+             'get_load_requests() and the requested strategy reaches job and commands (R3); distribution dispatch and '
+             'the SINGLE_INSTANCE / SINGLE_NODE selection structure (R4).',
+        technique='tolerant extraction of selection specs (sorted key / index) vs frozen spec + argument provenance (ast)',
+        design='4/C14'),
 }
 
 PENDING_REASON = 'check not implemented yet in this revision (static rules designed in DESIGN.md section 4)'
